@@ -298,6 +298,11 @@ def finish(check, repo=None, write_evidence=True, out=print):
             "files": repo.files() if repo is not None else {},
             "known_findings": [v.record() for v, _ in known],
             "analysis_errors": check.errors,
+            "normal_forms_applied": ({
+                m.name: {k: v for k, v in (getattr(m, "normalized", {}) or {}).items() if v}
+                for m in repo.modules.values() if any((getattr(m, "normalized", {}) or {}).values())
+            } if repo is not None else {}),
+            "keywords_made_positional": getattr(repo, "keywords_made_positional", 0) if repo is not None else 0,
         }
         cov.update(check.extra)
         ev = {
